@@ -149,7 +149,11 @@ GEN_PREDECLARED = ["Byte", "Rune", "String", "Int", "Bool", "Uint8", "Int64", "U
 
 FOREIGN_SRC = """package %s
 
-import "%s/internal/impl"
+import (
+	"time"
+
+	"%s/internal/impl"
+)
 
 type T struct{ N int }
 type I interface{ Do(T) error }
@@ -171,6 +175,21 @@ type RW interface {
 	Read(p []byte) (n int, err error)
 	Write(p []byte) (n int, err error)
 }
+
+// an interface whose method mentions a third package
+type TI interface {
+	Third(d time.Duration) error
+}
+
+// a sealed constraint (unexported method) and the only type that satisfies it
+type Sealed interface {
+	Pos() int
+	isNode()
+}
+type Leaf struct{ P int }
+
+func (l Leaf) Pos() int { return l.P }
+func (Leaf) isNode()    {}
 """
 
 # types of the package under test (only those a program mentions are declared)
@@ -187,6 +206,8 @@ LOCAL_TYPES = {
     "LSI": "type LSI int\n\nfunc (LSI) String() string { return \"\" }",
     "LL": "type LL int\n\nfunc (LL) Less(LL) bool { return false }\n\nfunc (LL) String() string { return \"\" }",
     "Number": "type Number interface{ ~int | ~int64 }",
+    "LSealed": "type LSealed interface {\n\tPos() int\n\tisNode()\n}",
+    "LLeaf": "type LLeaf struct{ P int }\n\nfunc (l LLeaf) Pos() int { return l.P }\nfunc (LLeaf) isNode()    {}",
     "LStr": "type LStr interface{ ~string }",
 }
 for _n in ["mock", "sync", "a", "i", "args", "run", "ret", "t", "m", "Mock", "String", "Type", "Ret", "Zzea", "CallInfo", "io"]:
@@ -668,11 +689,15 @@ def stratum(x):
     fam = p["fam"]
     if fam == "shape":
         head = p["feat"].split("(", 1)[0] if "(" in p["feat"] else "leaf"
+        if p["feat"].startswith("iface(;"):
+            return ("shape", p["pos"], "iface-embed", p["feat"])      # anonymous interface embedding X: every X
         return ("shape", p["pos"], head, leaf_class(p))
     if fam == "ident":
         return ("ident", p["idclass"], p["ident"])
     if fam == "pkgs":
         return ("pkgs", p["srcname"], p["pid"].split("/")[0])
+    if fam == "multi":
+        return ("multi", p["pid"].split("/")[1])          # the order in which the interfaces share the file
     if fam == "embed":
         return ("embed", str(len(p["decls"][p["target"]]["es"])), "overlap" if x.get("overlap") else "disjoint")
     return (fam, p["pid"])
@@ -698,6 +723,8 @@ def select_programs(ctx, sp, tier, scale=1.0, exclude_fams=()):
             k = 3 if st[1] in ("tpllocal", "predeclared", "pkgname", "caseclash") else 2 if st[1] == "common" else 1
         elif fam == "pkgs":
             k = max(2, len(pids) // 8)
+        elif fam == "multi":
+            k = 8
         elif fam == "embed":
             k = max(4, len(pids) // 6)
         else:
@@ -891,6 +918,9 @@ def mockery_entry(cs, template=None, extra=None, names=None):
     conf = {"template": template or cs.cfg["tmpl"], "formatter": cs.cfg["fmt"],
             "dir": str(cs.world / cs.outdir), "filename": cs.outfile, "pkgname": cs.outpkg,
             "template-data": template_data(cs.cfg, cs.cexpect, cs.world) if template is None else {}}
+    rp = cs.prog.get("repl")
+    if rp:       # replace-type entry of the program (CodegenMC.tla Repl): <from pkg>.<from name> -> <to pkg>.<to name>
+        conf["replace-type"] = {PKGS[rp["from"]["p"]][0]: {rp["from"]["n"]: {"pkg-path": PKGS[rp["to"]["p"]][0], "type-name": rp["to"]["n"]}}}
     if extra:
         conf.update(extra)
     if names is None:
